@@ -12,7 +12,7 @@ import vf
 # generated files for which NO correspondence component exists: their translator is the only tie
 MANDATORY_GENS = {'C19': ('GenPyx.v',)}
 TEXTUAL_ADVISORY = ('C02', 'C04', 'C05', 'C06', 'C08')
-PROP_GENS = {'C02': ('GenParams.v',), 'C05': ('GenParams.v',), 'C13': ('GenCli.v', 'GenCliIdx.v'), 'C18': ('GenLayout.v', 'GenCliIdx.v'), 'C19': ('GenPyx.v', 'GenCli.v')}
+PROP_GENS = {'C02': ('GenParams.v',), 'C05': ('GenParams.v',), 'C14': ('GenParams.v',), 'C17': ('GenParams.v',), 'C13': ('GenCli.v', 'GenCliIdx.v'), 'C18': ('GenLayout.v', 'GenCliIdx.v'), 'C19': ('GenPyx.v', 'GenCli.v')}
 
 
 class Ctx:
